@@ -195,6 +195,10 @@ class AstToODataVisitor(visitor.NodeVisitor):
             + ")"
         )
 
+    def visit_NamedParam(self, node: ast.NamedParam) -> str:
+        """:meta private:"""
+        return self.visit(node.name) + "=" + self.visit(node.param)
+
     def visit_Any(self, node: ast.Any) -> str:
         """:meta private:"""
         return "any"
